@@ -640,7 +640,8 @@ def components(type_, role):
 
 
 def cells_table(type_, role, cells, companion_row=False):
-    """one row per cell (row number in Id_1); with `companion_row` a valid second row is added"""
+    """one row per cell (row number in Id_1); with `companion_row` a valid second row is added (companion_row == "first":
+    the companion is the first physical row, so that per-column decisions taken from the first value see the companion)"""
     comps, col = components(type_, role)
     cols = [c[0] for c in comps]
     rows = []
@@ -650,6 +651,8 @@ def cells_table(type_, role, cells, companion_row=False):
         comp_t = companion(type_, cells[0])
         n = len(cells) + 1
         rows.append([str(n), comp_t, "1"] if role == "id" else [str(n), comp_t])
+        if companion_row == "first":
+            rows = rows[-1:] + rows[:-1]
     return {"comps": comps, "cols": cols, "rows": rows, "cellcol": col}
 
 
